@@ -154,13 +154,8 @@ def adapted_elem(closures, nextcall):
 ALL_KINDS = frozenset(("0", "1", "2"))
 
 
-def filter_kinds(closures, closure, x):
-    """Kinds of link `x` that the filter predicate `closure` can let through, or None if the predicate looks
-    at anything but the link's kind (then it may hide entries of every kind)."""
-    cl = closures.run(closure, params={2: ("ref", x)})
-    if cl is None or cl["effects"]:
-        return None
-    K = mk_field(x, "kind", LINK)
+def _admitted_kinds(cl, K):
+    """Kinds admitted by a predicate summary whose only subject is the kind expression K; None if it looks at anything else."""
     admitted = set()
     for pcs, ret, vf in cl["vpaths"]:
         kinds = set(ALL_KINDS)
@@ -188,6 +183,15 @@ def filter_kinds(closures, closure, x):
             continue
         return None
     return frozenset(admitted)
+
+
+def filter_kinds(closures, closure, x):
+    """Kinds of link `x` that the filter predicate `closure` can let through, or None if the predicate looks
+    at anything but the link's kind (then it may hide entries of every kind)."""
+    cl = closures.run(closure, params={2: ("ref", x)})
+    if cl is None or cl["effects"]:
+        return None
+    return _admitted_kinds(cl, mk_field(x, "kind", LINK))
 
 
 def loop_kinds(closures, nextcall):
@@ -222,27 +226,7 @@ def filter_kinds_pair(closures, closure, x):
     if cl is None or cl["effects"]:
         return None
     link = mk_deref(mk_field(x, "0", ""))
-    K = mk_field(link, "kind", LINK)
-    admitted = set()
-    for pcs, ret, vf in cl["vpaths"]:
-        kinds = set(ALL_KINDS)
-        for e, v in vf:
-            if e == K:
-                kinds &= {v}
-            else:
-                return None
-        for c, truth in pcs:
-            if c[0] == "bin" and c[1] in ("Eq", "Ne") and c[2] == ("discr", K) and is_const(c[3]):
-                same = (c[1] == "Eq") == truth
-                kinds = (kinds & {c[3][1]}) if same else (kinds - {c[3][1]})
-            else:
-                return None
-        if is_const(ret):
-            if ret[1] == "1":
-                admitted |= kinds
-            continue
-        return None
-    return frozenset(admitted)
+    return _admitted_kinds(cl, mk_field(link, "kind", LINK))
 
 
 def _strip_outer(it, n):
@@ -865,6 +849,11 @@ class Trace:
         if ev.op == "push" and len(ev.args) >= 2:
             W = mk_deref(ev.args[0])
             # is W a worklist (popped somewhere on this path)?
+            # the visit order: each node is appended once, right after the visited-set admitted it
+            pv = ev.args[1]
+            if any(f[0] == "popped" and f[2] == pv for f in st.flags) and (("vis_guard_ok", pv) in st.flags or any(f[0] == "vis_ins" and f[2] == pv for f in st.flags)) \
+                    and not any(f[0] == "popped" and f[1] == W for f in st.flags):
+                return add(st, ("vis_list", W))
             if not any(f[0] == "popped" and f[1] == W for f in st.flags):
                 # a push before the crawl starts seeds the worklist (`frontier.push_back(root)` instead of `vec![root]`)
                 first = ev.args[1]
@@ -953,6 +942,8 @@ class Trace:
                     eng.obl("GATE-7", "registration:%s" % kind_name(kind), b)
                     eng.obl("GATE-8", "registration:%s" % kind_name(kind), b)
                     fl = [("elem_reg", E, S, f[4], kind, None)]
+                    if f[4] == "same" and kind != "0":
+                        fl.append(("map_multikey", S))
                     if not adopters_only(kind):
                         fl.append(("elem_acc_pending", E, slot))
                     return add(st2, *fl)
@@ -962,21 +953,27 @@ class Trace:
             if r[0] == "call" and r[2].endswith("::deref") and r[3]:
                 r = r[3][0]
             W = mk_deref(r)
-            if any(f[0] == "wl_seed" and sub(W, f[1]) for f in st.flags) or any(f[0] == "cursorq" and f[1] == W for f in st.flags):
-                P = mk_deref(mk_field(("variant", inner, "Some", 1), "0", ""))
-                if inner[1] not in self.cursor_sites:
-                    self.cursor_sites[inner[1]] = cursor_discipline(eng.fn, inner[1])
-                fl = [("popped", W, P), ("cursorq", W, inner[1])]
-                for f in st.flags:
-                    if f[0] == "wl_seed" and sub(W, f[1]):
-                        fl.append(("wl_initk", W, f[2], f[3]))
-                    if f[0] == "wl_seedptr" and sub(W, f[1]):
-                        fl.append(("wl_initptr", W, f[2]))
-                return add(st, *fl)
+            P = mk_deref(mk_field(("variant", inner, "Some", 1), "0", ""))
+            r2 = self._cursor_read(eng, st, W, P, inner[1])
+            if r2 is not None:
+                return r2
         # second phase of a two-phase trace: the members found by the crawl (the visited set) are walked, each once
         if inner[0] == "call" and inner[2] == "core::iter::Iterator::next" and v == "1":
             src = iter_source(inner[3][0])
-            if src is not None and src[0] == "map" and not src[-1] and ("vis_set", src[1]) in st.flags:
+            members = None
+            if src is not None and src[0] == "map" and not src[-1]:
+                members = src[1]
+                # a slice borrowed from a Vec (`for node in &order` / `nodes: &[Link]`)
+                for _ in range(3):
+                    if members[0] == "deref":
+                        members = members[1]
+                    elif members[0] == "ref":
+                        members = members[1]
+                    elif members[0] == "call" and members[2].rsplit("::", 1)[-1] in ("deref", "as_slice", "as_ref", "iter", "borrow") and members[3]:
+                        members = members[3][0]
+                    else:
+                        break
+            if members is not None and (("vis_set", src[1]) in st.flags or ("vis_set", members) in st.flags or ("vis_list", members) in st.flags):
                 dst = eng.fn.blocks[inner[1]]["term"]["dst"]
                 shape = elem_shape(eng.fn.locals[dst["l"]]["ty"]["s"]) if not dst["p"] else None
                 if shape is not None and shape[1] is None:
@@ -1015,12 +1012,12 @@ class Trace:
         S = mk_deref(ev.recv) if ev.recv is not None else None
         if ev.op in ("contains", "contains_key") and len(ev.args) >= 2:
             for f in st.flags:
-                if f[0] == "popped" and (mk_deref(ev.args[1]) == f[2] or ev.args[1] == f[2]):
+                if f[0] == "popped" and (mk_deref(ev.args[1]) == f[2] or ev.args[1] == f[2] or mk_deref(ev.args[1]) == mk_field(f[2], "ptr", LINK)):
                     return add(st, ("vis_test", S, f[2], ev.res))
             return None
         if ev.op == "insert" and ev.container.endswith("HashSet") and len(ev.args) >= 2:
             for f in st.flags:
-                if f[0] == "popped" and ev.args[1] == f[2]:
+                if f[0] == "popped" and (ev.args[1] == f[2] or ev.args[1] == mk_field(f[2], "ptr", LINK)):
                     return add(st, ("vis_ins", S, f[2]), ("vis_set", S))
             if not any(f[0] == "popped" for f in st.flags):
                 # before the crawl starts: the seed is marked as seen (cursor-queue form)
@@ -1043,6 +1040,8 @@ class Trace:
             for f, E, target, kind in self._match(st, key):
                 st = rem(st, lambda g: g == f)
                 st = add(st, ("elem_reg", E, S, target, kind, ev.res if ev.op == "entry" else None))
+                if target == "same" and kind != "0":
+                    st = add(st, ("map_multikey", S))
                 self.elem_arms.add((ev.b, kind))
                 eng.obl("GATE-7", "registration:%s" % kind_name(kind), ev.b)
                 eng.obl("GATE-8", "registration:%s" % kind_name(kind), ev.b)
@@ -1100,6 +1099,28 @@ class Trace:
                     return None
         return None
 
+    def _cursor_read(self, eng, st, W, P, site):
+        """The queue W (seeded, append-only) is read at `site` through a cursor; P is the node read."""
+        if not (any(f[0] == "wl_seed" and sub(W, f[1]) for f in st.flags) or any(f[0] == "cursorq" and f[1] == W for f in st.flags)):
+            return None
+        if site not in self.cursor_sites:
+            self.cursor_sites[site] = cursor_discipline(eng.fn, site)
+        fl = [("popped", W, P), ("cursorq", W, site)]
+        for f in st.flags:
+            if f[0] == "wl_seed" and sub(W, f[1]):
+                fl.append(("wl_initk", W, f[2], f[3]))
+            if f[0] == "wl_seedptr" and sub(W, f[1]):
+                fl.append(("wl_initptr", W, f[2]))
+        return add(st, *fl)
+
+    def on_pure(self, eng, ev, st):
+        # `let node = queue[cursor]`
+        res = ev.get("res")
+        if ev.callee == "core::ops::Index::index" and isinstance(res, tuple) and res[0] == "call" and len(res[3]) >= 2:
+            W = mk_deref(res[3][0])
+            return self._cursor_read(eng, st, W, mk_deref(res), res[1])
+        return None
+
     def _lk(self, E):
         return self.elem_info[E][0] if E in self.elem_info else mk_deref(mk_field(E, "0", ""))
 
@@ -1121,9 +1142,14 @@ class Trace:
                     target = "as:" + str(dict(k2[5])["kind"][4]) if dict(k2[5]).get("kind", ("",))[0] == "agg" else "as:?"
                 if target is None:
                     continue
-                kv = st.variant(mk_field(lk, "kind", LINK))
+                kexpr = mk_field(lk, "kind", LINK)
+                kv = st.variant(kexpr)
                 if kv is None and len(f) > 4:
                     kv = f[4]
+                if kv is None:
+                    excluded = {g[2] for g in st.flags if g[0] == "notvar" and g[1] == kexpr}
+                    if excluded:
+                        kv = "".join(sorted(ALL_KINDS - excluded)) or None
                 out.append((f, E, target, kv))
         return out
 
@@ -1204,7 +1230,7 @@ class Trace:
         if c[2].startswith("hashbrown::HashSet") and c[2].endswith("::insert") and len(c[3]) >= 2 and truth:
             # `if !visited.insert(node) { continue }`: insert returned true <=> the node was not visited before
             for f in st.flags:
-                if f[0] == "popped" and c[3][1] == f[2]:
+                if f[0] == "popped" and (c[3][1] == f[2] or c[3][1] == mk_field(f[2], "ptr", LINK)):
                     return add(st, ("vis_guard_ok", f[2]), ("vis_set", mk_deref(c[3][0])))
             # discovery-time marking: `if seen.insert(key(link)) { queue.push(link) }`
             return add(st, ("seen_new", mk_deref(c[3][0]), c[3][1]))
@@ -1224,6 +1250,8 @@ class Trace:
                 st = rem(st, lambda g: g == f)
                 eng.obl("GATE-7", "registration:%s" % kind_name(kind), b)
                 fl = [("elem_reg", E, S, target, kind, None)]
+                if target == "same" and kind != "0":
+                    fl.append(("map_multikey", S))
                 if not adopters_only(kind):
                     fl.append(("elem_acc_pending", E, None))
                 eo = elem_of(c[3][1])
@@ -1351,15 +1379,34 @@ class Adaptors:
         cl = self.closures.run(closure, params={2: ("ref", E)})
         if cl is None or cl["effects"]:
             return None
-        live_paths = [(pcs, ret) for pcs, ret in cl["paths"] if not (is_const(ret) and ret[1] == "0")]
+        live_paths = [(pcs, ret, vf) for pcs, ret, vf in cl["vpaths"] if not (is_const(ret) and ret[1] == "0")]
         if len(live_paths) == 1:
             # a single way for the predicate to hold: everything it tested is known for this element
-            pcs, ret = live_paths[0]
+            pcs, ret, vf = live_paths[0]
+            for e, v in vf:
+                known = st.variant(e)
+                if known is not None and known != v:
+                    return False
+                if known is None:
+                    st = st.replace(var=st.var | {(e, v)})
             for c, truth in list(pcs) + [(ret, True)]:
                 st = eng.assume(st, c, truth, site)
                 if st is None:
                     return False
             return st
+        # variant facts shared by every way the predicate can hold
+        if live_paths:
+            common = set(live_paths[0][2])
+            for _p, _r, vf in live_paths[1:]:
+                common &= set(vf)
+            for e, v in common:
+                known = st.variant(e)
+                if known is not None and known != v:
+                    return False
+                if known is None:
+                    st = st.replace(var=st.var | {(e, v)})
+        else:
+            common = set()
         allowed = {}
         touched = set()
         for pcs, ret in cl["paths"]:
@@ -1384,7 +1431,7 @@ class Adaptors:
                 allowed.setdefault(bx, set())
                 allowed[bx] |= per.get(bx, ALL)
         if not allowed:
-            return None
+            return st if common else None
         ss = dict(st.ss)
         for bx, cls in allowed.items():
             cur = st.strong(bx) & frozenset(cls)
@@ -1448,11 +1495,35 @@ class GroupPhases:
             return rem(st, lambda f: f[0] == "in_loop" and f[1] == M and f[2] == N)
         return None
 
+    def _canonical_key(self, st, box, M):
+        """Can the element naming `box` be the only key of its allocation in map M?  Yes if the trace registered
+        canonical keys only, or this element's kind is known to be the canonical one (Forward)."""
+        if ("map_multikey", M) not in st.flags:
+            return True
+        b = box
+        while b[0] in ("deref", "ref"):
+            b = b[1]
+        if b[0] == "field" and b[2] == "ptr" and len(b) > 3 and b[3] == LINK:
+            kexpr = mk_field(b[1], "kind", LINK)
+            if st.variant(kexpr) == "0":
+                return True
+            excluded = {g[2] for g in st.flags if g[0] == "notvar" and g[1] == kexpr}
+            if excluded >= {"1", "2"}:
+                return True
+        return False
+
     def on_set(self, eng, ev, st):
         g = group_of(ev.box)
         if g is None:
             return None
         M, N = g
+        if ev.field == "strong" and ev.cls == "max" and "U" not in st.strong(ev.box):
+            # test-and-set of the uninit mark: whatever follows for this box in this iteration happens once per allocation
+            return add(st, ("once", ev.box))
+        if ev.field == "weak" and ev.cls == "dec":
+            eng.obl("TS-3", "group-release-once", ev.b)
+            if not self._canonical_key(st, ev.box, M) and ("once", ev.box) not in st.flags:
+                eng.violate("TS-3", "group-member-released-per-key", "the trace's result map can hold several keys for one allocation (a Forward and a Loopback key), and the release loop gives up the implicit weak of a member once per key: its allocation is released twice (use after free)", ev.b, st)
         if ev.field == "strong" and ev.cls in ("dec", "zero", "other", "sub"):
             eng.obl("TS-2", "group-lowering-order", ev.b)
             if ("group_destroyed", M) in st.flags or ("member_destroyed", M) in st.flags:
@@ -1475,6 +1546,9 @@ class GroupPhases:
             return None
         M, N = g
         self.moveout_maps.add(M)
+        eng.obl("TS-1", "group-moveout-once", ev.b)
+        if not self._canonical_key(st, ev.box, M) and ("once", ev.box) not in st.flags:
+            eng.violate("TS-1", "group-member-moved-per-key", "the trace's result map can hold several keys for one allocation, and contents are moved out of a member once per key without a test-and-set of the uninit mark: the value is destroyed twice", ev.b, st)
         return add(st, ("moved_members", M), ("moved_in", M, N), ("mv_group", ev.res, M))
 
     def on_vec(self, eng, ev, st):
